@@ -94,8 +94,13 @@ def core(ctx):
 
 @st.composite
 def _case(draw, ctx):
-    shape = draw(st.sampled_from(["reconv", "reconv", "wide", "multi", "single"]))
-    if shape == "reconv":
+    shape = draw(st.sampled_from(["reconv", "reconv", "wide", "multi", "single", "large"]))
+    if shape == "large":
+        # deeper nesting of supergates needs more room: 5..9 inputs, up to 28 gates, 1..3 outputs
+        spec = draw(S.circuit_spec(min_inputs=5, max_inputs=9, min_gates=12, max_gates=28, max_fanin=draw(st.sampled_from([2, 2, 3])),
+                                   consts=False, min_fanin_nary=2, outputs=draw(st.sampled_from(["sinks+random", "random"])),
+                                   single_output=draw(st.integers(0, 2)) == 0))
+    elif shape == "reconv":
         spec = draw(S.circuit_spec(min_inputs=1, max_inputs=3, min_gates=3, max_gates=10, max_fanin=draw(st.sampled_from([2, 2, 3, 4])),
                                    consts=draw(st.booleans()), single_output=draw(st.booleans()), min_fanin_nary=2))
     elif shape == "wide":
